@@ -1,14 +1,14 @@
-\* thorough: peers, the ticket-bearing command, wait + exec; exhaustive
+\* quick: 2 callers, the place-in-queue negotiation (send, then waiter + timeout) next to a plain wait; send failure, cancellation during the send, timeout; exhaustive, graph dumped, edge cover replayed
 SPECIFICATION Spec
 CONSTANTS
   Callers = {1, 2}
-  Specs <- SpecsP
-  Msgs <- MsgsP
-  Apis = {"wait", "exec"}
+  Specs <- SpecsN
+  Msgs <- MsgsN
+  Apis = {"place", "wait"}
   Timeouts = {"short"}
   MaxElapse = 0
-  MaxFeeds = 2
-  MaxBatch = 2
+  MaxFeeds = 1
+  MaxBatch = 1
   MaxCancel = 1
   MaxDue = 1
   MaxSlow = 0
